@@ -68,6 +68,26 @@ void h_handle_request_migrate(void)
     VF_ASSERT((r != ABT_SUCCESS) == (vf_getmig_fail || vf_assoc_fail), "fails iff a callee failed");
     VF_REACH("handle_request_migrate"); VF_COVER(r == ABT_SUCCESS && has_cb, "with callback"); VF_COVER(r != ABT_SUCCESS && vf_assoc_fail && !vf_getmig_fail, "association failed");
 }
+/* Rely/guarantee: while the handler runs, the unit is still a legitimate target of migration requests -- another stream,
+ * an external thread, or the user's migration callback itself (it receives the unit's handle) may call
+ * ABT_thread_migrate_to_pool(unit, third pool), which stores the pool and raises MIGRATE (unit migrate_to_pool_internal)
+ * and returns ABT_SUCCESS.  The callback is where user code runs for an arbitrary time, so the environment step is placed
+ * there.  Guarantee demanded by C13 ("for all interleavings of migration requests ... repeated, overwritten"): an
+ * accepted request is not erased by the handler of an EARLIER request -- when the handler returns, the later request has
+ * either been performed (the unit is associated with the third pool) or is still pending (MIGRATE raised, its pool
+ * recorded), so that the unit's next scheduling serves it. */
+static ABTI_pool third_pool; static int env_req, env_req_done;
+static void mig_cb_env(ABT_thread t, void *arg) { mig_cb(t, arg); if (env_req) { md.p_migration_pool.val = &third_pool; th.request.val |= ABTI_THREAD_REQ_MIGRATE; env_req_done = 1; } }
+void h_handle_request_migrate_rg(void)
+{
+    vf_mig = &md; vf_getmig_fail = 0; vf_assoc_fail = 0; th.p_pool = &cur_pool; md.p_migration_pool.val = &new_pool; md.f_migration_cb = mig_cb_env; int cbarg; md.p_migration_cb_arg = &cbarg;
+    th.request.val |= ABTI_THREAD_REQ_MIGRATE; vf_cb_calls = 0; vf_assocs = 0; vf_clock = 1; { int e; env_req = !!e; } env_req_done = 0;
+    int r = ABTI_thread_handle_request_migrate(&glob, NULL, &th);
+    VF_ASSERT(r == ABT_SUCCESS && vf_cb_calls == 1, "the first request is performed, callback once");
+    if (env_req_done) VF_ASSERT(th.p_pool == &third_pool || ((th.request.val & ABTI_THREAD_REQ_MIGRATE) && md.p_migration_pool.val == (void *)&third_pool), "a migration request accepted while the handler of an earlier request runs is NOT erased: it has been performed or is still pending when the handler returns");
+    else VF_ASSERT(th.p_pool == &new_pool && !(th.request.val & ABTI_THREAD_REQ_MIGRATE), "no further request: migrated, nothing pending");
+    VF_REACH("handle_request_migrate rg"); VF_COVER(env_req_done, "a request arrived during the callback");
+}
 #endif
 
 #ifdef VF_UNIT_API
